@@ -11,6 +11,10 @@ type containerMetaList struct {
 	main       metaIterator
 	choiceCase *containerMetaList
 	s          *Selection
+
+	// err is set when the node could not tell which case of a choice is selected. Iteration
+	// ends and whoever is iterating is expected to check this when nextMeta returns nil
+	err error
 }
 
 type metaIterator interface {
@@ -60,6 +64,10 @@ func newChoiceCaseIterator(s *Selection, m *meta.ChoiceCase) *containerMetaList 
 func (self *containerMetaList) nextMeta() meta.Meta {
 	var next = self.next
 	self.lookAhead()
+	if self.err != nil {
+		// stop here, not after handing out one more definition
+		return nil
+	}
 	return next
 }
 
@@ -70,6 +78,12 @@ func (self *containerMetaList) lookAhead() {
 		if self.choiceCase != nil {
 			m = self.choiceCase.nextMeta()
 			if m == nil {
+				if self.choiceCase.err != nil {
+					self.err = self.choiceCase.err
+					self.main = nil
+					self.choiceCase = nil
+					return
+				}
 				self.choiceCase = nil
 				continue
 			}
@@ -83,9 +97,18 @@ func (self *containerMetaList) lookAhead() {
 		}
 		if choice, isChoice := m.(*meta.Choice); isChoice {
 			if chosen, err := self.s.Node.Choose(self.s, choice); err != nil {
-				panic(fmt.Sprintf("%T - %s", self.s.Node, err))
+				self.err = fmt.Errorf("%T - %w", self.s.Node, err)
+				self.main = nil
+				self.choiceCase = nil
+				return
 			} else if chosen != nil {
 				self.choiceCase = newChoiceCaseIterator(self.s, chosen)
+				if self.choiceCase.err != nil {
+					self.err = self.choiceCase.err
+					self.main = nil
+					self.choiceCase = nil
+					return
+				}
 				continue
 			}
 		} else {
